@@ -389,6 +389,9 @@ func parseRDNSS(d rawRDNSS, maxInterval time.Duration) (*plugin.RDNSS, error) {
 			return nil, fmt.Errorf("string %q is not an IPv6 address", s)
 		}
 
+		// A zone is not part of the address carried in an RDNSS option.
+		ip = ip.WithZone("")
+
 		// If :: is present, don't add it to the slice but do set Auto to true
 		// so a server address can be automatically chosen at runtime. The
 		// remaining server addresses will be set statically.
